@@ -977,6 +977,9 @@ func runReplay(c *Config, file string) int {
 	P := symx.NewProgram(l.prog, elys+"/zzvrf", initAllow)
 	cr := concreteRerun(P, c, specs[0], symx.Violation{Label: rf.Label, Model: rf.Model, Kind: "assert"})
 	fmt.Printf("concrete re-execution on the current tree (real SSA, harness summaries applied): %s\n", cr)
+	if w, ok := concreteWitness(P, c, specs[0], rf.Model); ok {
+		fmt.Printf("  covers=%v observations=%v\n", w.Covers, w.Obs)
+	}
 	res := cr
 	if len(decl.Summaries) == 0 {
 		rp := &replayer{c: c, l: l}
